@@ -37,30 +37,40 @@ def overflow_stage(prop, tier, name):
         for ent in ENTRIES:
             for cls, mv in CLASSES.items():
                 want = table[str(mv)] if isinstance(table, dict) else table[mv]
-                r = subprocess.run([exe, "overflow", ent, cls], cwd=wd, stdout=subprocess.PIPE, stderr=subprocess.STDOUT, text=True, timeout=120)
-                n += 1
-                o = r.stdout
-                tag = "%s from count %s (%s build)" % (ent, cls, "std" if cfgname == "a" else "no_std")
-                def bad(msg):
-                    res["violations"].append({"stage": name, "key": "overflow:%s:%s:%s" % (ent, cls, cfgname), "entry": ent, "class": cls, "cfg": cfgname,
-                                              "errors": ["[abort] %s: %s; the specification says: %s" % (tag, msg, want)]})
-                if "CALLING" not in o:
-                    raise ToolError("overflow child did not reach the call: %s" % o[-200:])
-                after = o.split("CALLING", 1)[1]
-                if want == "ok":
-                    if r.returncode != 0 or "RETURNED" not in after:
-                        bad("a clone below the limit did not return (exit %s, %s)" % (r.returncode, after.strip()[:80]))
+                # the process must die whatever its environment: also with a standard error stream that rejects every write
+                for errname in (("pipe",) if want == "ok" else ("pipe", "/dev/full")):
+                    if errname == "pipe":
+                        r = subprocess.run([exe, "overflow", ent, cls], cwd=wd, stdout=subprocess.PIPE, stderr=subprocess.STDOUT, text=True, timeout=120)
                     else:
-                        c = int(after.split("count=")[1].split()[0], 16)
-                        if c != REAL[cls] + 1:
-                            bad("the clone changed the count from %#x to %#x, not by exactly one" % (REAL[cls], c))
-                else:
-                    if "RETURNED" in after:
-                        bad("the clone returned a handle although the count had passed the limit (%s)" % after.strip()[:80])
-                    elif "CAUGHT-PANIC" in after:
-                        bad("the overflow guard raised a catchable panic instead of terminating the process")
-                    elif r.returncode != -6:
-                        bad("the process ended with status %s instead of aborting" % r.returncode)
+                        if not os.path.exists(errname):
+                            continue
+                        with open(errname, "w") as ef:
+                            r = subprocess.run([exe, "overflow", ent, cls], cwd=wd, stdout=subprocess.PIPE, stderr=ef, text=True, timeout=120)
+                    n += 1
+                    o = r.stdout
+                    tag = "%s from count %s (%s build%s)" % (ent, cls, "std" if cfgname == "a" else "no_std", "" if errname == "pipe" else ", stderr = " + errname)
+
+                    def bad(msg):
+                        res["violations"].append({"stage": name, "key": "overflow:%s:%s:%s%s" % (ent, cls, cfgname, "" if errname == "pipe" else ":" + errname),
+                                                  "entry": ent, "class": cls, "cfg": cfgname, "stderr": errname,
+                                                  "errors": ["[abort] %s: %s; the specification says: %s" % (tag, msg, want)]})
+                    if "CALLING" not in o:
+                        raise ToolError("overflow child did not reach the call: %s" % o[-200:])
+                    after = o.split("CALLING", 1)[1]
+                    if want == "ok":
+                        if r.returncode != 0 or "RETURNED" not in after:
+                            bad("a clone below the limit did not return (exit %s, %s)" % (r.returncode, after.strip()[:80]))
+                        else:
+                            c = int(after.split("count=")[1].split()[0], 16)
+                            if c != REAL[cls] + 1:
+                                bad("the clone changed the count from %#x to %#x, not by exactly one" % (REAL[cls], c))
+                    else:
+                        if "RETURNED" in after:
+                            bad("the clone returned a handle although the count had passed the limit (%s)" % after.strip()[:80])
+                        elif "CAUGHT-PANIC" in after:
+                            bad("the overflow guard raised a catchable panic instead of terminating the process")
+                        elif r.returncode != -6:
+                            bad("the process ended with status %s instead of aborting" % r.returncode)
     res["evaluations"] = n
     res["traces"] = n
     res["nontrivial"] = n
@@ -71,5 +81,9 @@ def overflow_stage(prop, tier, name):
 
 def replay_overflow(prop, v):
     exe = build_harness(v.get("cfg", "a"))
-    r = subprocess.run([exe, "overflow", v["entry"], v["class"]], stdout=subprocess.PIPE, stderr=subprocess.STDOUT, text=True)
+    if v.get("stderr", "pipe") != "pipe" and os.path.exists(v["stderr"]):
+        with open(v["stderr"], "w") as ef:
+            r = subprocess.run([exe, "overflow", v["entry"], v["class"]], stdout=subprocess.PIPE, stderr=ef, text=True)
+    else:
+        r = subprocess.run([exe, "overflow", v["entry"], v["class"]], stdout=subprocess.PIPE, stderr=subprocess.STDOUT, text=True)
     return ["[tlc] exit %s: %s" % (r.returncode, r.stdout.strip()[-200:])] + v.get("errors", [])
